@@ -198,6 +198,15 @@ def prop_als(case, ctx):
     kap = max(kappa_als(Y, I, w, lamb), kappa_als(Y0, I, w, lamb))
     tol = 1e-8 * kap           # observed worst ratio diff/kappa over ~50k cases: 1.1e-10 (error compounds over the core updates)
     stable = tol <= 1e-3
+    if stable:
+        # kappa at the end points does not bound what the iteration does in between (a start with exact zeros or an underdetermined
+        # core can send it through nearly singular steps): measure the amplification of a 1e-10 relative perturbation of the data
+        yq = y * (1.0 + 1e-10 * np.random.default_rng(case["pseed"] + 1).standard_normal(m))
+        Yq = ctx.lib(teneva.als, I, yq, Y0, nswp, None, {}, lamb=lamb, w=w)
+        amp = rel_diff(Yq, Y) / 1e-10
+        if amp > 1e6:          # (rounding enters through a solve of condition kappa first: its share is ~ amp * kappa * 1e-16 <= tol / 100)
+            stable = False
+            ctx.label("metamorphic_skipped_amplification")
     if not stable:
         ctx.label("metamorphic_skipped_ill_conditioned")
     # (d) a+b sweeps == a sweeps, restart, b sweeps
@@ -401,6 +410,13 @@ def prop_func(case, ctx):
         ctx.label("growth_mode_metamorphic_not_asserted")
     elif not stable:
         ctx.label("metamorphic_skipped_ill_conditioned")
+    if stable:
+        yq = y * (1.0 + 1e-10 * np.random.default_rng(case["dseed"] + 1).standard_normal(m))
+        Aq = ctx.lib(teneva.als_func, X, yq, A0, a, b, nswp, None, {}, lamb=lamb, thr_pow=0., **kwg)
+        amp = rel_diff(Aq, A) / 1e-10 if oracle.shape_of(Aq) == oracle.shape_of(A) else float("inf")
+        if amp > 1e6:          # (rounding enters through a solve of condition kappa first: its share is ~ amp * kappa * 1e-16 <= tol / 100)
+            stable = False
+            ctx.label("metamorphic_skipped_amplification")
     aa = min(case["a"], nswp)
     if nswp - aa >= 1 and stable:
         Ab = ctx.lib(teneva.als_func, X, y, runs[aa - 1], a, b, nswp - aa, None, {}, lamb=lamb, thr_pow=0., **kwg)
